@@ -1,18 +1,14 @@
 from contracts import engine as E, handlers as H
+from pyvc.contracts import _clauses
 def build(P):
-    P.use_contracts("arn", "engine")
-    E.register_paths_abstract(P.reg)
-    E.register_notify_callees(P.reg)
-    H.externals(P.reg)
-    P.spec_module("specs/asl.py")
-    c = H.on_response_contract()
-    import ast
-    extra = [
-        ("D1", "implies(old(isdict(result) and result.get('Error')), n_herr == old(n_herr) + 1)"),
-        ("D2", "implies(old(isdict(result) and result.get('Error')) and n_herr == old(n_herr) + 1, herr_type == 'States.TaskFailed')"),
-        ("D3", "implies(old(isdict(result)) and old(result.get('Error')), herr_type == 'States.TaskFailed')"),
-        ("D4", "implies(old(task_error_type(result)) == 'States.TaskFailed', herr_type == 'States.TaskFailed')"),
-    ]
-    from pyvc.contracts import _clauses
-    c.ensures = _clauses(extra)
-    P.verify(E.NOTIFY + "asl_state_Task_delegate.<locals>.on_response", c)
+    H.setup(P)
+    c = H.task_delegate_contract()
+    W = "n_exec_task == old(n_exec_task) + 1 and isstr(old(state.get('Resource', ''))) and old(state.get('Resource', '')).endswith('.waitForTaskToken')"
+    c.ensures = _clauses([
+        ("D1", "implies(%s, at_snapshot('exec_heap', haskey(context, 'Task')))" % W),
+        ("D2", "implies(%s, at_snapshot('exec_heap', isdict(context['Task']) and haskey(context['Task'], 'Token')))" % W),
+        ("D3", "implies(%s, at_snapshot('exec_heap', isstr(context['Task']['Token'])))" % W),
+        ("D4", "implies(%s, at_snapshot('exec_heap', context['Task']['Token'].startswith(id)))" % W),
+        ("D5", "implies(%s, at_snapshot('exec_heap', context['Task']['Token'].startswith(id + '.waitForTaskToken:')))" % W),
+    ])
+    P.verify(E.NOTIFY + "asl_state_Task_delegate", c)
